@@ -104,11 +104,31 @@ theorem positions_encode (sul : SULW) (recs : List LR) (ℓ : Layout) (hs : sul.
   unfold iterPositions
   rw [iterPositionsSt_encode sul recs ℓ hs hne hc]
 
-/-! Residual gap (stated, not proved): `positions_encode` speaks of `specPositionsS` (positions by `segTable`),
-`get_slice` / `touched_subset` of `recEntry` (positions by `walkEnd`).  That entry k of `specPositionsS` has the positions
-`recEntry` of record k — both are the same walk over the layout — is checked below on the example by `decide`, and on
-every run by the harness (implementation entries = positions computed independently in Python = the positions the
-fetches use), but there is no general lemma. -/
+/-- **One entry per record**: the specification list (hence, by `positions_encode`, the index) has exactly as many
+entries as there are logical records. -/
+theorem positions_count (recs : List LR) (ℓ : Layout) (hc : ℓ.conformant recs = true) :
+    (specPositionsS recs ℓ).length = recs.length := by
+  unfold Layout.conformant at hc
+  simp only [Bool.and_eq_true] at hc
+  obtain ⟨E, hE, hEq⟩ := collectPos_cutAll recs ℓ.recs (segTable 80 0 0 (cutAll recs ℓ.recs)) [] hc.1
+    (by rw [segTable_length])
+  unfold specPositionsS flatWithPos
+  simp only [List.append_nil, collectPos] at hEq
+  rw [hEq, hE]
+
+/-- **Entry k describes record k**: the entry at the index of record `r` carries the positions `recEntry` at which
+`get_slice` / `touched_subset` fetch, the attribute byte of the record's first segment (kind = `r.eflr`, first, not
+last unless it is the only segment, flags of `d`), the record's type and the summed body length of its segments.
+With `positions_encode` this closes the chain index entry → fetch → payload slice. -/
+theorem positions_entry (rpre rpost : List LR) (r : LR) (lpre lpost : List (List SegDesc)) (d : SegDesc)
+    (ds : List SegDesc) (hlen : lpre.length = rpre.length)
+    (hc : (Layout.mk (lpre ++ (d :: ds) :: lpost)).conformant (rpre ++ r :: rpost) = true) :
+    (specPositionsS (rpre ++ r :: rpost) ⟨lpre ++ (d :: ds) :: lpost⟩)[rpre.length]? =
+      some ⟨(recEntry rpre lpre d).1, (recEntry rpre lpre d).2, attrByte r.eflr true ds.isEmpty d, r.type,
+        0 + ((d :: ds).map (fun x => x.n + x.padBytes.length)).sum⟩ := by
+  unfold Layout.conformant at hc
+  simp only [Bool.and_eq_true] at hc
+  exact positions_entry_flat rpre rpost r lpre lpost d ds hlen hc.1
 
 example : (specPositionsS exRecs exLayout).map (fun c => (c.vrPos, c.lrshPos))
     = [recEntry [] [] ⟨10, 2, 0, none, false, false, false, some 40⟩,
